@@ -30,10 +30,20 @@ Accepted == \A i \in 1..Len(Traces) : PrintT(<<"RESULT", i, TLCGet(i) - 1, Len(T
 """
 
 
+BATCH = 20000
+
+
 def validate(module_file, constants_cfg, traces, ctx, name, timeout=300, dfs=False, extra_cfg=""):
-    """Return a list of (matched_events, total_events) per trace."""
+    """Return a list of (matched_events, total_events) per trace. Large sets are validated in batches, several JVMs at a time."""
     if not traces:
         return []
+    if len(traces) > BATCH:
+        from concurrent.futures import ThreadPoolExecutor
+        chunks = [traces[i:i + BATCH] for i in range(0, len(traces), BATCH)]
+        with ThreadPoolExecutor(max_workers=6) as ex:
+            parts = list(ex.map(lambda c: validate(module_file, constants_cfg, c, ctx, name, timeout=max(timeout, 900), dfs=dfs,
+                                                   extra_cfg=extra_cfg), chunks))
+        return [v for part in parts for v in part]
     mod = os.path.splitext(os.path.basename(module_file))[0]
     tmod = "Trace_" + mod
     text = TEMPLATE % {"mod": mod, "tmod": tmod}
